@@ -35,7 +35,7 @@ RULE = ("cases: (a) every native entry point of _psutil_linux/_psutil_posix and 
         "empty/short/full-width-unterminated, high-bit bytes, :0/:0.0 hosts, 0-200 records, truncated tail) decoded by users() vs "
         "a struct-level decoder; (c) generated mounts files (escapes, long lines, 0-2000 entries, missing fields, non-UTF-8) through "
         "cext.disk_partitions and disk_partitions(all) vs a getmntent(3) reference; (d) veth interface tables in a private netns "
-        "vs `ip -j addr` (spelled-out link-locals on 15-char names, tun point-to-point links); (e) a reduced (a)-(c) under valgrind "
+        "vs `ip -j addr` (spelled-out link-locals on 15-char names, tun point-to-point links), every question repeated with psutil's debug messages on and descriptor 2 closed / on /dev/full (same answers required); (e) a reduced (a)-(c) under valgrind "
         "memcheck, error blocks with a frame in the extension attributed to the input announced last. non-trivial = input with a full-width unterminated field, an escape, a >=15-byte interface name, an "
         "out-of-int-range integer, a wrong-typed argument; distinct by case hash. A sanitizer report or signal death is a violation.")
 ASSUMPTIONS = [
